@@ -3,7 +3,7 @@
     ([gen_cfg]) and compare, thread by thread, who has returned and who is
     still waiting. *)
 From Coq Require Import List NArith Bool String.
-From Verif Require Import Sni.SchedSkel Sni.Shutdown Sni.ShutdownGen.
+From Verif Require Import Sni.SchedSkel Sni.Shutdown Sni.ShutdownCfg.
 Import ListNotations.
 Local Open Scope N_scope.
 
